@@ -98,7 +98,7 @@ def h_migrate(x, nb, ne, ieee=False):
                 fp.declare_bounds("d", dlo, dhi)
             rows = [Row(x.zint("lid", 1, 10**6), k * 1000, d, x.zint("ltag", 0, 2))]
         else:
-            rows = ST.sym_rows(x, "l%d" % i, ne)
+            rows = ST.sym_rows(x, "l%d" % i, ne[i] if isinstance(ne, (list, tuple)) else ne)
         LegacyStore.events[b] = rows
         allrows += rows
     if len(allrows) <= 8:
@@ -197,6 +197,7 @@ def harnesses(tier):
     hs = []
     for nb, ne in ([(1, 2), (2, 1), (3, 1), (1, 101)] if tier == "quick" else [(1, 2), (2, 1), (2, 2), (1, 3), (1, 101), (1, 230)]):
         hs.append((Harness(PROP, "migrate-%db-%de" % (nb, ne), h_migrate, dict(nb=nb, ne=ne), "first start of the default SqliteStorage beside a legacy store with %d bucket(s) x %d event(s) carrying ids; directory listing and profile chosen by forking" % (nb, ne), split_depth=6), 1800))
+    hs.append((Harness(PROP, "migrate-3b-with-empty-buckets", h_migrate, dict(nb=3, ne=(1, 0, 0)), "legacy store with one populated and two empty buckets (metadata only)", split_depth=6), 1800))
     hs.append((Harness(PROP, "migrate-ieee-durations", h_migrate, dict(nb=1, ne=1, ieee=True), "one legacy event copied under IEEE double rounding: every duration 0..30 d (80 range pieces), instants 2020..2038", split_depth=4, fresh_solver=True), 1800))
     return hs
 
@@ -206,6 +207,7 @@ def meta(chk, tier):
     chk.functions.append(dict(functions=["SqliteStorage.__init__ (migration trigger)", "check_for_migration", "detect_db_files", "peewee_v2_to_sqlite_v1", "SqliteStorage.create_bucket / insert_many / replace"]))
     chk.bounds = [
         "legacy store: <=3 buckets (one with a unicode id, a null name and empty data; one with nested data; two ids that differ only in case) x <=%d events with symbolic instants, durations, tags and pairwise distinct symbolic ids; plus one bucket of 101 (thorough: 230) events with strictly increasing symbolic ids and instants (bulk-insert chunking)" % (2 if tier == "quick" else 3),
+        "legacy buckets without any event (metadata and data dict only)",
         "%d directory listings (no file, distractors only, legacy file of the normal / testing / both profiles) x both profiles" % len(LISTINGS),
     ]
     chk.stubs = ["aw_datastore.storages.PeeweeStorage -> read-only legacy stub behind the real buckets()/get_events() interface (records write attempts)", "os.listdir / os.path.exists / get_data_dir -> in-memory directory", "sqlite3 -> symex.sqlstub"]
